@@ -37,6 +37,15 @@ CLAIMED = {
             "best-first, one-node) are validated as traces.",
             "Dyadic edges / integer data so float32 casts and midpoints are exact; numpy.digitize and sklearn apply are "
             "used to cross-check the spec's own Digitize/Route definitions (a mismatch is a machinery failure)."),
+    "C19": ("DESIGN 4/C19",
+            "TLA+ spec CatEncode (fit/schema layout + the cell loop with the variable p): TLC model checking (incl. a "
+            "negative run reproducing the stale-p defect) + spec->code replay on real DataFrames + trace validation",
+            "TLC checks, for every training value set, option combination and 1-2 row frame in the bound, that the cell "
+            "loop writes exactly the row's own column=value indicators and raises iff an unseen value meets "
+            "skip_errors=False; terminal states are replayed on real object-dtype frames (single=False and True, numeric "
+            "columns, non-default index); random larger frames are validated as traces.",
+            "columns= passed explicitly (pandas-3 auto-detection is version drift); `remove`d categories modelled as the "
+            "code treats them (no column; a row holding one is an unseen value)."),
 }
 
 PENDING_REASON = "check not built yet in this round (planned: see DESIGN.md section 4); not claimed until it runs"
